@@ -9,7 +9,11 @@
 use ckc_rs::PokerCard;
 
 pub static mut N: usize = 0;
-pub static mut POS: usize = 0;
+/// position per live iterator, identified by its address (a parser may create more than one iterator;
+/// each starts at the first token, as the real `split_whitespace` does)
+pub static mut ITER: [usize; 4] = [0; 4];
+pub static mut POS: [usize; 4] = [0; 4];
+pub static mut NITER: usize = 0;
 pub static mut V: [u32; 9] = [0; 9];
 pub static TOKENS: [&str; 9] = ["#0", "#1", "#2", "#3", "#4", "#5", "#6", "#7", "#8"];
 
@@ -18,7 +22,7 @@ pub fn install(n: usize, v: [u32; 9]) -> &'static str {
     unsafe {
         N = n;
         V = v;
-        POS = 0;
+        NITER = 0;
     }
     "(token stream is abstract)"
 }
@@ -43,18 +47,34 @@ pub fn install(n: usize, v: [u32; 9]) -> &'static str {
 
 /// start a fresh token stream (every parser call creates a new iterator)
 pub fn rewind() {
-    unsafe { POS = 0 }
+    unsafe { NITER = 0 }
 }
 
 #[cfg(kani)]
-pub fn stub_next<'a>(_it: &mut core::str::SplitWhitespace<'a>) -> Option<&'a str>
+pub fn stub_next<'a>(it: &mut core::str::SplitWhitespace<'a>) -> Option<&'a str>
 where
     'a: 'a,
 {
+    let id = it as *mut core::str::SplitWhitespace<'a> as usize;
     unsafe {
-        if POS < N {
-            let t = TOKENS[POS];
-            POS += 1;
+        let mut slot = 4usize;
+        let mut i = 0;
+        while i < 4 {
+            if i < NITER && ITER[i] == id && slot == 4 {
+                slot = i;
+            }
+            i += 1;
+        }
+        if slot == 4 {
+            kani::assert(NITER < 4, "S6: more than four token iterators in one parser call");
+            slot = NITER;
+            ITER[slot] = id;
+            POS[slot] = 0;
+            NITER += 1;
+        }
+        if POS[slot] < N {
+            let t = TOKENS[POS[slot]];
+            POS[slot] += 1;
             Some(t)
         } else {
             None
@@ -62,9 +82,13 @@ where
     }
 }
 
+/// token `#k` -> V[k]; anything else (e.g. an empty default token) parses to blank, as the real token parser does
 #[cfg(kani)]
 pub fn stub_from_index(index: &str) -> u32 {
     let b = index.as_bytes();
+    if b.len() != 2 || b[0] != b'#' || b[1] < b'0' || b[1] > b'8' {
+        return 0;
+    }
     let k = (b[1] - b'0') as usize;
     unsafe { V[k] }
 }
